@@ -22,6 +22,7 @@ func init() {
 			{ID: "C12.2", Doc: "what Check=nil means", Floor: 6, Run: c12r2},
 			{ID: "C12.3", Doc: "target derivation", Floor: 4, Run: c12r3},
 			{ID: "C12.4", Doc: "serving and building items", Floor: 8, Run: c12r4},
+			{ID: "C12.6", Doc: "rejection codes reach the wire: Wrapper.Put hands back the validator's own error value, and the put handler sends a krpc.Error as it is", Floor: 3, Run: c12r6},
 			{ID: "C12.5", Doc: "client-side acceptance", Floor: 2, Run: c12r5},
 		},
 	})
@@ -385,6 +386,35 @@ func c12r5(w *World, rr *RuleRun) {
 	sgt := w.P.Func("exts/getput.startGetTraversal")
 	a := w.bep44()
 	n := 0
+	verified := func(alt *Alt) (bool, string) {
+		hashEq := func(inner func(string) bool) bool {
+			return alt.Has("b", true, func(t *Term) bool {
+				if t.Op != OpBin || t.Name != "==" {
+					return false
+				}
+				l, r := t.Args[0], t.Args[1]
+				isSum := func(x *Term) bool {
+					return x.Op == OpCall && strings.HasSuffix(x.Name, "sha1.Sum") && inner(x.String())
+				}
+				isTarget := func(x *Term) bool { return strings.HasPrefix(x.String(), "target") }
+				return (isSum(l) && isTarget(r)) || (isSum(r) && isTarget(l))
+			})
+		}
+		if hashEq(func(s string) bool { return !strings.Contains(s, "append") && strings.Contains(s, ".V") }) {
+			return true, "sha1(v) == target"
+		}
+		keyOK := hashEq(func(s string) bool {
+			return strings.Contains(s, "append") && strings.Contains(s, ".K") && strings.Contains(s, "salt")
+		})
+		verOK := alt.Has("b", true, func(t *Term) bool {
+			return isCall(t, a.verify) && len(t.Args) == 5 && strings.Contains(t.Args[0].String(), ".K") && strings.HasPrefix(t.Args[1].String(), "salt") &&
+				strings.Contains(t.Args[2].String(), ".Seq") && strings.Contains(t.Args[3].String(), ".V") && strings.Contains(t.Args[4].String(), ".Sig")
+		})
+		if keyOK && verOK {
+			return true, "sha1(k ‖ salt) == target ∧ Verify(k, salt, seq, v, sig)"
+		}
+		return false, fmt.Sprintf("keyMatch=%v verify=%v", keyOK, verOK)
+	}
 	for _, f := range append([]*ssa.Function{sgt}, allAnon(sgt)...) {
 		for _, b := range f.Blocks {
 			for _, ins := range b.Instrs {
@@ -397,35 +427,7 @@ func c12r5(w *World, rr *RuleRun) {
 						continue
 					}
 					n++
-					w.Require(rr, ins, "value handed to the caller only after hash-match or key-match ∧ Verify", func(alt *Alt) (bool, string) {
-						hashEq := func(inner func(string) bool) bool {
-							return alt.Has("b", true, func(t *Term) bool {
-								if t.Op != OpBin || t.Name != "==" {
-									return false
-								}
-								l, r := t.Args[0], t.Args[1]
-								isSum := func(x *Term) bool {
-									return x.Op == OpCall && strings.HasSuffix(x.Name, "sha1.Sum") && inner(x.String())
-								}
-								isTarget := func(x *Term) bool { return strings.HasPrefix(x.String(), "target") }
-								return (isSum(l) && isTarget(r)) || (isSum(r) && isTarget(l))
-							})
-						}
-						if hashEq(func(s string) bool { return !strings.Contains(s, "append") && strings.Contains(s, ".V") }) {
-							return true, "sha1(v) == target"
-						}
-						keyOK := hashEq(func(s string) bool {
-							return strings.Contains(s, "append") && strings.Contains(s, ".K") && strings.Contains(s, "salt")
-						})
-						verOK := alt.Has("b", true, func(t *Term) bool {
-							return isCall(t, a.verify) && len(t.Args) == 5 && strings.Contains(t.Args[0].String(), ".K") && strings.HasPrefix(t.Args[1].String(), "salt") &&
-								strings.Contains(t.Args[2].String(), ".Seq") && strings.Contains(t.Args[3].String(), ".V") && strings.Contains(t.Args[4].String(), ".Sig")
-						})
-						if keyOK && verOK {
-							return true, "sha1(k ‖ salt) == target ∧ Verify(k, salt, seq, v, sig)"
-						}
-						return false, fmt.Sprintf("keyMatch=%v verify=%v", keyOK, verOK)
-					})
+					w.Require(rr, ins, "value handed to the caller only after hash-match or key-match ∧ Verify", verified)
 				}
 			}
 		}
@@ -441,6 +443,46 @@ func c12r5(w *World, rr *RuleRun) {
 					rr.At(w, s, "no unguarded send of a result", false, "plain channel send in the get traversal")
 				}
 			}
+		}
+	}
+	// nothing taken from a reply outlives its verification: inside the query callback, state shared
+	// between replies (variables captured from the enclosing function, directly or through a sibling
+	// closure that writes them) is touched only once the reply has been verified
+	writesCaptured := func(f *ssa.Function) bool {
+		found := false
+		eachInstr([]*ssa.Function{f}, func(_ *ssa.Function, ins ssa.Instruction) {
+			if st, ok := ins.(*ssa.Store); ok {
+				if _, isFV := ptrRootValue(st.Addr).(*ssa.FreeVar); isFV {
+					found = true
+				}
+			}
+		})
+		return found
+	}
+	t := w.trav()
+	for _, cb := range w.CG.FieldFuncs(t.doQuery) {
+		if cb.Parent() != sgt {
+			continue
+		}
+		nEff := 0
+		eachInstr([]*ssa.Function{cb}, func(_ *ssa.Function, ins ssa.Instruction) {
+			switch x := ins.(type) {
+			case *ssa.Store:
+				if _, isFV := ptrRootValue(x.Addr).(*ssa.FreeVar); isFV {
+					nEff++
+					w.Require(rr, ins, "state shared between replies is written only from a verified reply", verified)
+				}
+			case *ssa.Call:
+				for _, e := range w.CG.SiteOut[x] {
+					if e.Callee.Parent() == sgt && e.Callee != cb && writesCaptured(e.Callee) {
+						nEff++
+						w.Require(rr, ins, "state shared between replies is written only from a verified reply", verified)
+					}
+				}
+			}
+		})
+		if nEff == 0 {
+			rr.ObligeTrivial(shortFuncName(cb), "the get callback keeps no state between replies", w.P.Pos(cb.Pos()), true, "")
 		}
 	}
 }
@@ -480,4 +522,120 @@ func (w *World) checkRawStoreFlow(rr *RuleRun) {
 		}
 		rr.At(w, ld, "ServerConfig.Store flows only into NewWrapper", ok, det)
 	}
+}
+
+// c12r6: "a rejected put is answered with the BEP 44 error code". The codes are the dynamic
+// krpc.Error values returned by Check / CheckIncoming; they reach the sender only if Wrapper.Put
+// returns those very values (a wrapped error no longer satisfies the handler's type assertion and
+// is answered 204), and if the handler sends the asserted value.
+func c12r6(w *World, rr *RuleRun) {
+	a := w.bep44()
+	n := 0
+	var chk func(x *Term, depth int) bool
+	chk = func(x *Term, depth int) bool {
+		if depth > 3 {
+			return false
+		}
+		if isCall(x, a.check) || isCall(x, a.checkIn) {
+			return true
+		}
+		if x.Op == OpExtract && len(x.Args) == 1 {
+			return chk(x.Args[0], depth+1)
+		}
+		if x.Op == OpCall && (strings.Contains(x.Name, "Store).Put") || strings.Contains(x.Name, "Store).Get") || strings.Contains(x.Name, "Store).Del")) {
+			return true // the backend's own error
+		}
+		if x.Op == OpCall {
+			// a folded helper of Put that returns one of the above unchanged
+			if g := w.FE.calleeFunc(x); g != nil && w.withinUp(g, a.wPut) {
+				okAll := true
+				nR := 0
+				fg := w.FE.analysisFor(g)
+				for _, ex := range fg.exits {
+					for _, alt := range ex.st {
+						rt := w.FE.Resolve(alt, ex.ret.Results[len(ex.ret.Results)-1])
+						if rt.IsConst("nil") {
+							continue
+						}
+						nR++
+						if !chk(rt, depth+1) {
+							okAll = false
+						}
+					}
+				}
+				return okAll && nR > 0
+			}
+		}
+		return false
+	}
+	fp := w.FE.analysisFor(a.wPut)
+	for _, ex := range fp.exits {
+		if len(ex.ret.Results) != 1 {
+			continue
+		}
+		bad := ""
+		nNon := 0
+		for _, alt := range ex.st {
+			t := w.FE.Resolve(alt, ex.ret.Results[0])
+			if t.IsConst("nil") {
+				continue
+			}
+			nNon++
+			if !chk(t, 0) {
+				bad = trunc(t.String(), 120)
+			}
+		}
+		if nNon == 0 {
+			continue
+		}
+		n++
+		rr.At(w, ex.ret, "Wrapper.Put returns the validator's (or the backend's) error value itself", bad == "", "returns "+bad)
+	}
+	if n == 0 {
+		rr.Oblige(shortFuncName(a.wPut), "Wrapper.Put returns the validator's (or the backend's) error value itself", w.P.Pos(a.wPut.Pos()), false, "no error return found")
+	}
+	// the handler: the value sent after a failed Put is the asserted krpc.Error of that Put
+	h := w.handler()
+	nS := 0
+	for _, p := range w.CallsInRegion(h.fn, a.wPut) {
+		pt := w.TS.Of(p.(ssa.Value))
+		for _, site := range w.CallsInRegion(h.fn, h.sendError) {
+			if !PrecededBy(site, func(i ssa.Instruction) bool { return i == p }) {
+				continue
+			}
+			et := w.TS.Of(callInstrCommon(site).Args[3])
+			if !et.Contains(pt) {
+				continue
+			}
+			nS++
+			isAssert := false
+			et.Walk(func(x *Term) bool {
+				if x.Op == OpAssert || strings.Contains(x.Name, "krpc.Error") {
+					isAssert = true
+				}
+				return !isAssert
+			})
+			rr.At(w, site, "a store rejection is sent as the krpc.Error it is", isAssert, "error argument "+trunc(et.String(), 120))
+		}
+	}
+	if nS == 0 {
+		rr.Oblige(shortFuncName(h.fn), "a store rejection is sent as the krpc.Error it is", w.P.Pos(h.fn.Pos()), false, "no sendError carrying the store's error after Wrapper.Put")
+	}
+}
+
+// ptrRootValue: the value an address is derived from (through field / index / slice steps).
+func ptrRootValue(v ssa.Value) ssa.Value {
+	for i := 0; i < 8; i++ {
+		switch x := v.(type) {
+		case *ssa.FieldAddr:
+			v = x.X
+		case *ssa.IndexAddr:
+			v = x.X
+		case *ssa.Slice:
+			v = x.X
+		default:
+			return v
+		}
+	}
+	return v
 }
